@@ -77,6 +77,11 @@ def passloop_model(out, tier):
         if r.rc != 0:
             raise ToolError("PassLoop.tla (N=4): design properties violated:\n" + r.out[-2500:])
         info["PassLoop N=4 (2 runs)"] = {"distinct_states": r.distinct, "result": "SweepBound, FixedPoint, Stable, AllVisited hold"}
+        rp4 = run_tlc("Pipeline", cfg="Pipeline_n4s", workers=12, heap="24g", timeout=7200)
+        out.add_tlc(rp4)
+        if rp4.rc != 0:
+            raise ToolError("Pipeline.tla (N=4, kill-free slice): design properties violated:\n" + rp4.out[-2500:])
+        info["Pipeline N=4 (every graph and every set of ecall nodes, no kills)"] = {"distinct_states": rp4.distinct, "result": "SweepBound, Consistent, EdgesStopAtExits, RoundsBound hold"}
         r5 = run_tlc("PassLoop", cfg="PassLoop_Udef_n4", workers=12, heap="24g", timeout=7200)
         out.add_tlc(r5)
         if r5.rc != 0:
